@@ -228,6 +228,10 @@ def core_matchers(t, i):
         T.on_transformed(T.filter_(T.l_num(T.cmp_('==', 1))), T.equals(first[0] + first[1], 'file')),
         T.on_transformed(T.replace('a', 'b'), T.matches('a')),
         T.on_transformed(T.replace('\\n', ''), T.num_lines(T.cmp_('<=', 1))),
+        T.on_transformed(T.replace('b', '\\n', preserve_nl=True), T.num_lines(T.cmp_('==', len(T.lines_of(t)) + t.count('b')))),
+        T.on_transformed(T.replace('a', 'x\\ny', preserve_nl=True), T.every_line(T.l_contents(T.matches('\\n', False)))),
+        T.on_transformed(T.replace('a', '\\n', preserve_nl=True), T.any_line(T.l_contents(T.matches('a')))),
+        T.on_transformed(T.replace('b', '\\n'), T.num_lines(T.cmp_('>', len(T.lines_of(t))))),
         T.on_transformed(T.seq(T.grep('a'), T.char_case('upper')), T.every_line(T.l_contents(T.matches('A')))),
         T.on_transformed(T.identity(), T.equals(t, 'prog')),
         T.on_transformed(T.strip('trailing-new-lines'), T.matches('\\n\\Z')),
@@ -296,6 +300,14 @@ def core_transformers(t, i):
         T.seq(T.replace('\\n', ''), T.filter_(T.l_num(T.cmp_('==', 1)))),
         T.seq(T.replace('b', '\\n'), T.filter_(T.l_num(T.cmp_('==', 2)))),
         T.seq(T.replace('b', '\\n'), T.replace('^', '>', preserve_nl=True)),
+        # a replacement that ADDS new-lines (the \\n escape), with and without -preserve-new-lines, followed by a
+        # line-wise consumer: the text must be re-divided into lines after the substitution
+        T.seq(T.replace('b', '\\n', preserve_nl=True), T.filter_(T.l_num(T.cmp_('==', 2)))),
+        T.seq(T.replace('a', 'x\\ny', preserve_nl=True), T.grep('y')),
+        T.seq(T.replace('a', '\\n', preserve_nl=True), T.replace('^', '>', preserve_nl=True)),
+        T.seq(T.replace(' ', '\\n', preserve_nl=True), T.filter_line_nums([[2, None]])),
+        T.seq(T.replace('b', '1\\n2\\n3', preserve_nl=True), T.filter_(T.l_num(T.cmp_('>=', 2))), T.strip()),
+        T.seq(T.replace('[ab]', '\\n\\g<0>', preserve_nl=True), T.grep('a', True)),
         T.seq(T.strip('trailing-new-lines'), T.replace('$', '!'), T.char_case('upper')),
         T.seq(T.filter_line_nums([[2, None]]), T.filter_line_nums([[1]]), T.identity()),
         T.seq(T.identity(), T.seq(T.grep('a'), T.replace('a', 'aa')), T.strip('trailing-space')),
